@@ -319,9 +319,18 @@ def write_ops(path, hdr, ops):
             f.write(o + '\n')
 
 
+def _rm_judge():
+    import shutil
+    shutil.rmtree(os.path.join(WORK, 'judge_%d' % os.getpid()), ignore_errors=True)
+
+
+import atexit
+atexit.register(_rm_judge)
+
+
 def judge_ops(hdr, ops, tag, noabs=False):
     """run an op list on the implementation and the model; returns (steps, done, seqres)"""
-    d = os.path.join(WORK, 'judge')
+    d = os.path.join(WORK, 'judge_%d' % os.getpid())   # per process: checks may run side by side
     os.makedirs(d, exist_ok=True)
     opsf = os.path.join(d, tag + '.ops')
     tr = os.path.join(d, tag + '.trace')
